@@ -601,6 +601,40 @@ def r10_complete_fill(ctx, prog, rule_id='C13.R10'):
                 r.ok(f['qname'], site, '%s bytes' % sorted(hits)[0][1], file=f['file'], line=line)
 
 
+def r13_unwrapped_key_marks(ctx, prog):
+    """An unwrapped key is "marked not local, not never-extractable, not always-sensitive" - whatever its class.  C_UnwrapKey is evaluated for a secret key and for a private key:
+    every path that commits the object has stored CKA_LOCAL, CKA_ALWAYS_SENSITIVE and CKA_NEVER_EXTRACTABLE as false before."""
+    r = ctx.rule('C13.R13', 'every unwrapped key - secret or private - is stored with CKA_LOCAL, CKA_ALWAYS_SENSITIVE and CKA_NEVER_EXTRACTABLE false', floor=2, engine='E1+E3 finite-domain evaluation over the object class')
+    f = prog.fn('SoftHSM::C_UnwrapKey')
+    ctx.analysed(f)
+    want = {macro(prog, n): n for n in ('CKA_LOCAL', 'CKA_ALWAYS_SENSITIVE', 'CKA_NEVER_EXTRACTABLE')}
+    for cname, ktype in (('CKO_SECRET_KEY', 'CKK_AES'), ('CKO_PRIVATE_KEY', 'CKK_RSA'), ('CKO_PRIVATE_KEY', 'CKK_EC')):
+        o = all_outcomes(f, prog, {'isInitialised': 1, 'objClass': macro(prog, cname), 'keyType': macro(prog, ktype), param_name(f, 6): 0}, {'setAttribute', 'commitTransaction'}, cap=256)
+        r.paths += len(o.outcomes)
+        site = 'unwrapping a %s (%s)' % (cname, ktype)
+        commits = [oc for oc in o.outcomes if any(e[0] == 'call' and e[1] == 'commitTransaction' for e in oc['events'])]
+        bad = None
+        for oc in commits:
+            stored = {}
+            for e in oc['events']:
+                if e[0] == 'call' and e[1] == 'setAttribute' and len(e[2]) >= 3:
+                    m = re.search(r'\((?:false|0)\)$|^(false|0)$', e[2][2])
+                    for v, n in want.items():
+                        if e[2][1] in (n, str(v)):
+                            stored[n] = bool(m)
+            missing = [n for n in want.values() if not stored.get(n)]
+            if missing:
+                bad = (oc, missing)
+                break
+        if not commits:
+            r.undecided(f['qname'], site, 'no path commits the object under the assignment', file=f['file'], line=f['line'])
+        elif bad:
+            r.violation(f['qname'], site, 'a path commits the unwrapped key without having stored %s = false: the key keeps the default of its class (a private key stays CKA_NEVER_EXTRACTABLE / CKA_ALWAYS_SENSITIVE = true although it came from outside the token)' % ', '.join(bad[1]),
+                        file=f['file'], line=bad[0]['line'], path=bad[0]['path'])
+        else:
+            r.ok(f['qname'], site, '%d committing paths' % len(commits), file=f['file'], line=f['line'])
+
+
 def run(ctx):
     po = ctx.prog('ossl-file')
     pb = ctx.prog('botan-file')
@@ -620,6 +654,7 @@ def run(ctx):
     r8_unpad_coverage(ctx, po)
     r9_branch_agreement(ctx, po)
     r10_complete_fill(ctx, po)
+    r13_unwrapped_key_marks(ctx, po)
     from rules import c05
     c05.r1c_fresh_holders(ctx, po, rule_id='C13.R12')
 
